@@ -111,6 +111,7 @@ class Folder:
                 return v
             raise KeyError(name)
 
+        f.mod = mod
         return f
 
     # ------------------------------------------------------------ expressions
